@@ -52,6 +52,9 @@ TPacked == IsEvent("packed") /\ Ev.outcome \in {"value", "error"} /\ Ev.yields <
 \* hostile layout tables of ContextClosure.tla: the closure / coverage helpers answer with a value or an error
 TLayHostile == IsEvent("layhostile") /\ Ev.outcome \in {"value", "error"}
 
+\* SimpleGlyph.tla members through read_points_fast: n points or an error
+TSimpleGlyph == IsEvent("simpleglyph") /\ Ev.outcome \in {"value", "error"} /\ (Ev.outcome = "value" => Ev.points = Ev.n)
+
 TInit == l = 1
-TraceSpec == TInit /\ [][TCursor \/ TCmapIter \/ TPacked \/ TLayHostile]_l
+TraceSpec == TInit /\ [][TCursor \/ TCmapIter \/ TPacked \/ TLayHostile \/ TSimpleGlyph]_l
 =============================================================================
